@@ -77,6 +77,14 @@ CHECKS = {
             "likelihood values, per-bin masks, optimal scaling, maximality over scalings, scale invariance, Gibbs maximality of "
             "model=c*data, residual sign and masks.",
             "scipy.special.gammaln; inputs with <3 jointly unmasked entries are skipped (likelihood undefined)", "DESIGN.md §2 C11"),
+    "C12": ("offline checker over the recorded evaluation history of the model function (boundary recorder) plus independent re-evaluation of the returned point",
+            "Every exposed optimiser (opt with BOBYQA/COBYLA in natural and log parameters, optimize, optimize_log, optimize_lbfgsb, "
+            "optimize_log_lbfgsb, optimize_log_fmin, optimize_log_powell, optimize_cons, optimize_grid) on cheap analytic 1-4 "
+            "parameter models and two real models: first evaluation = start, every evaluation within bounds, fixed parameters never "
+            "varied and returned unchanged, returned point within bounds, ll(returned) = reported optimum, opt no worse than start, "
+            "arguments untouched; project up/down inverses; perturb_params within (also negative) bounds without touching its arguments.",
+            "optimisers are black boxes (no optimality claim); starts exactly on a bound are moved 1e-9 inside for log-parameter "
+            "optimisers (exp(log x) round trip); lower bounds of the synthetic models are never None", "DESIGN.md §2 C12"),
     "C14": ("round-trip monitor over Spectrum.to_file/from_file (plain, gz, old format), Numerics.array_to_file/array_from_file and every pickle protocol",
             "Random 1-5-D spectra incl. singleton axes, 1e-300..1e300, inf/nan, masks, folding, labels with spaces, 0-5 comments, "
             "precision 16-20: written with the real writers into scratch files and read back with the real readers; shape, mask, "
